@@ -107,9 +107,50 @@ HANDLER_RULES = [
 ]
 
 
+VARIANTS = ["Bool", "Str", "Int", "BigInt", "Float", "Byte", "Function", "BuiltInFunction", "Vector", "HeapPrimitive", "Object", "Module", "Optional", "Map"]
+_loop_counter = [0]
+
+
+def generic_for(b):
+    """R2 (generic): `for x in &v { B }` -> indexed while; no sidecar invariant beyond the index range"""
+    _loop_counter[0] += 1
+    k = f"verif_g{_loop_counter[0]}"
+    v, x = text(b["v"]), text(b["x"])
+    return [f"let mut {k} : usize = 0 ; while {k} < {v} . len ( )", G(f"invariant {k} <= {v}.len(), decreases {v}.len() - {k},"),
+            "{", f"let {x} = & {v} [ {k} ] ; {k} += 1 ;", *b["body"], "}"]
+
+
+def qualify_variants(toks, log):
+    """`use Primitive::*;` inside a handler: drop it and write the variants qualified"""
+    out = []
+    had_use = False
+    i = 0
+    while i < len(toks):
+        if toks[i:i + 5] == ["use", "Primitive", "::", "*", ";"]:
+            had_use = True; i += 5; continue
+        out.append(toks[i]); i += 1
+    if not had_use:
+        return toks
+    res = []
+    for j, t in enumerate(out):
+        if t in VARIANTS and j + 1 < len(out) and out[j + 1] == "(" and (j == 0 or out[j - 1] != "::"):
+            res += ["Primitive", "::", t]
+        else:
+            res.append(t)
+    log.append(("R1", "use Primitive::*;", "(variants written qualified)", "glob import inside the handler"))
+    return res
+
+
+GENERIC_RULES = [
+    Rule("R9", "matches ! ( $e , $$p )", "( match $e { $$p => true , _ => false } )", why="matches! -> match"),
+    Rule("R2", "for $x in & $v { $$body }", generic_for, why="for over &Vec -> indexed while (iteration order of slice::Iter)"),
+]
+
+
 def handler(src, log, name, extra_rules=()):
     f = src.fn(INSTR, name, "pub mod implementations")
-    body = translate(f["body"], list(extra_rules) + HANDLER_RULES, log, f"implementations::{name}")
+    body = qualify_variants(list(f["body"]), log)
+    body = translate(body, list(extra_rules) + HANDLER_RULES + GENERIC_RULES, log, f"implementations::{name}")
     check_closed(body, f"implementations::{name}")
     return body
 
@@ -224,6 +265,7 @@ def build_c19(repo):
     ])
     gen = header(log, f"{INSTR}: call_lib; {CTXF}: Ctx methods") + prelude("ctx.rs") + ctx + f"""
 //@ OBL C19.call_lib
+#[verifier::loop_isolation(false)]
 pub fn call_lib(ctx: &mut Ctx, args: &Vec<VString>) -> (r: Result<(), VErr>)
     ensures
         // the library name and the function name are required
